@@ -842,3 +842,177 @@ def _r4_guards(ctx: RuleCtx, mod: Module) -> None:
                 f'`{short(pick.value)}` can see candidates that did not pass {gname}'
                 + (f' (defined by `{short(bad_defs[0])}` after/around the filter)' if bad_defs else ' (the filter does not dominate the choice)')
                 + ': a list shared with another target could be extended', pick)
+
+
+# ---------------------------------------------------------------------------
+# R6: default-options set/delete removes exactly the entries of the addressed key
+def _only_anchors(text: str) -> bool:
+    """The regex fragment matches the empty string at the start only (^, \\A)."""
+    try:
+        items = list(rx.parse(text))
+    except Undecided:
+        return False
+    return bool(items) and all(op is rx.sre_c.AT and str(av) in ('AT_BEGINNING', 'AT_BEGINNING_STRING') for op, av in items)
+
+
+def r6(ctx: RuleCtx) -> None:
+    from ..consteval import Opaque
+    from ..flow import Flow
+    mod = ctx.repo.module(REWRITER)
+    qn = 'Rewriter.process_default_options'
+    fn = mod.func(qn)
+    # -- the removal command: {'function': F, 'operation': OP, 'kwargs': {KW: [<pattern> for x in <keys>]}}
+    recs = []
+    for d in ast.walk(fn):
+        if isinstance(d, ast.Dict):
+            rec = {k.value: v for k, v in zip(d.keys, d.values) if isinstance(k, ast.Constant)}
+            if {'function', 'operation', 'kwargs'} <= set(rec) and isinstance(rec['kwargs'], ast.Dict):
+                recs.append(rec)
+    if len(recs) != 1:
+        raise Undecided(f'{qn}: {len(recs)} command records')
+    rec = recs[0]
+    if not all(isinstance(rec[k], ast.Constant) for k in ('function', 'operation')):
+        raise Undecided(f'{qn}: function/operation of the removal command are not constants')
+    func_c, op_c = rec['function'].value, rec['operation'].value
+    kw = {k.value: v for k, v in zip(rec['kwargs'].keys, rec['kwargs'].values) if isinstance(k, ast.Constant)}
+    if len(kw) != 1:
+        raise Undecided(f'{qn}: removal command addresses {list(kw)}')
+    kwname, pats = next(iter(kw.items()))
+    if not (isinstance(pats, ast.ListComp) and len(pats.generators) == 1 and isinstance(pats.elt, ast.JoinedStr)):
+        raise Undecided(f'{qn}: patterns are not [f"..." for key in ...]: {short(pats)}')
+    var = norm(pats.generators[0].target)
+    if "cmd['options']" not in norm(pats.generators[0].iter):
+        raise Undecided(f'{qn}: patterns are not built from the requested option keys')
+    pieces = pats.elt.values
+    kidx = [i for i, p in enumerate(pieces) if isinstance(p, ast.FormattedValue) and var in {n.id for n in ast.walk(p.value) if isinstance(n, ast.Name)}]
+    if len(kidx) != 1 or not all(isinstance(p, ast.Constant) for i, p in enumerate(pieces) if i != kidx[0]):
+        raise Undecided(f'{qn}: pattern {short(pats.elt)} is not constant + key + constant')
+    lead = ''.join(p.value for p in pieces[:kidx[0]])      # type: ignore[attr-defined]
+    trail = ''.join(p.value for p in pieces[kidx[0] + 1:])  # type: ignore[attr-defined]
+    keyexpr = pieces[kidx[0]].value                         # type: ignore[attr-defined]
+    self_anchored = bool(lead) and _only_anchors(lead)
+    ctx.require(lead == '' or self_anchored, f'{qn}: nothing but a start anchor precedes the key in the pattern ({lead!r} + key + {trail!r})', mod, qn, pats.elt,
+                f'the removal pattern is {lead!r} + key + {trail!r}: the text before the key can match characters, so `default-options set debug` / `delete c_std` '
+                'also removes entries that merely contain `<key>=` (b_ndebug=..., objc_std=...)', pats.elt)
+    try:
+        titems = list(rx.parse(trail))
+    except Undecided:
+        titems = []
+    first_lit = chr(titems[0][1]) if titems and titems[0][0] is rx.sre_c.LITERAL else None
+    ctx.require(first_lit == '=', f'{qn}: the key is delimited by a literal `=` in the pattern', mod, qn, f'pattern tail {trail!r}',
+                f'after the key the pattern continues with {trail!r}, not with a literal `=`: a key that is a prefix of another option name (b_lto / b_lto_mode) removes that one too', pats.elt)
+    escaped = isinstance(keyexpr, ast.Call) and norm(keyexpr.func) == 're.escape'
+    ctx.note(f'key part of the pattern: {short(keyexpr)} ' + ('(regex-escaped)' if escaped else
+             '(NOT regex-escaped; keys are user input, a `.` in a key such as python.install_env matches any character - not decided as a violation)'))
+
+    # -- dispatch: table entry -> modifier class; operation constant -> method called by process_kwargs
+    tab = fold_expr(ctx.repo, mod, mod.assign_value('rewriter_func_kwargs'))
+    try:
+        cls_o = tab[func_c][kwname]
+    except (KeyError, TypeError):
+        raise Undecided(f'rewriter_func_kwargs[{func_c!r}][{kwname!r}] not found')
+    if not (isinstance(cls_o, Opaque) and cls_o.kind == 'class'):
+        raise Undecided(f'rewriter_func_kwargs[{func_c!r}][{kwname!r}] is not a class')
+    cmod, cdef = cls_o.node
+    pk = mod.func('Rewriter.process_kwargs')
+    pm = mod.parent_map()
+    meths: T.Set[str] = set()
+    pdefs: T.Dict[str, T.List[ast.AST]] = {}
+    for n in ast.walk(pk):
+        if isinstance(n, ast.Assign) and len(n.targets) == 1 and isinstance(n.targets[0], ast.Name):
+            pdefs.setdefault(n.targets[0].id, []).append(n.value)
+
+    def is_modifier(e: ast.AST) -> bool:
+        # <name> = <table>[key](...) with <table> = rewriter_func_kwargs[...]
+        if not (isinstance(e, ast.Name) and len(pdefs.get(e.id, [])) == 1):
+            return False
+        d = pdefs[e.id][0]
+        if not (isinstance(d, ast.Call) and isinstance(d.func, ast.Subscript) and isinstance(d.func.value, ast.Name)):
+            return False
+        t = pdefs.get(d.func.value.id, [])
+        return len(t) == 1 and isinstance(t[0], ast.Subscript) and norm(t[0].value) == 'rewriter_func_kwargs'
+    for c in ast.walk(pk):
+        if isinstance(c, ast.Call) and isinstance(c.func, ast.Attribute) and len(c.args) == 1 and is_modifier(c.func.value):
+            cur: ast.AST = c
+            while cur in pm and not isinstance(cur, ast.FunctionDef):
+                par = pm[cur]
+                if isinstance(par, ast.If) and cur in par.body:
+                    a, pol = canon(par.test, True)
+                    if pol and a.kind == 'cmp' and a.args[0] == 'eq' and "cmd['operation']" in a.args[1:] and repr(op_c) in a.args[1:]:
+                        meths.add(c.func.attr)
+                    break
+                cur = par
+    if len(meths) != 1:
+        raise Undecided(f'process_kwargs: operation {op_c!r} dispatches to {sorted(meths)}')
+    entry = next(iter(meths))
+
+    # -- follow the pattern from <class>.<entry>(regex) to the functions that apply it
+    seen: T.Set[str] = set()
+    appliers: T.List[T.Tuple[Module, str, ast.FunctionDef, str]] = []   # (module, qualified name, function, pattern parameter)
+
+    def follow(mname: str, pparam_idx: int, depth: int = 0) -> None:
+        r = ctx.repo.find_method(cmod, cdef, mname)
+        if r is None or depth > 4:
+            raise Undecided(f'{cdef.name}.{mname} not found')
+        m2, c2, f = r
+        q = f'{c2.name}.{mname}'
+        if q in seen:
+            return
+        seen.add(q)
+        params = [a.arg for a in f.args.args]
+        if params and params[0] in ('self', 'cls') and 'staticmethod' not in [norm(d) for d in f.decorator_list]:
+            params = params[1:]
+        if pparam_idx >= len(params):
+            raise Undecided(f'{q}: pattern parameter not found')
+        pp = params[pparam_idx]
+        fl = Flow(f)
+        if any(isinstance(c, ast.Call) and (attr_chain(c.func) or '').startswith('re.') and c.args and f'param:{pp}' in fl.origins(c.args[0]) for c in ast.walk(f)):
+            appliers.append((m2, q, f, pp))
+        # callables handed on / called with the pattern
+        fparams: T.Dict[str, str] = {}
+        for c in ast.walk(f):
+            if not isinstance(c, ast.Call):
+                continue
+            tgt = _self_meth(c.func)
+            if tgt is not None and ctx.repo.find_method(cmod, cdef, tgt) is not None:
+                # self.helper(<pattern>, self.matcher): pattern flows to helper param i; matcher bound to a callable param
+                callee = ctx.repo.find_method(cmod, cdef, tgt)[2]  # type: ignore[index]
+                cparams = [a.arg for a in callee.args.args][1:]
+                pidx = [i for i, a in enumerate(c.args) if f'param:{pp}' in fl.origins(a)]
+                cb = [(i, _self_meth(a)) for i, a in enumerate(c.args) if _self_meth(a) is not None]
+                if pidx:
+                    for i, cbname in cb:
+                        # inside the callee the callable parameter is applied to (element, pattern-derived value)
+                        cfl = Flow(callee)
+                        for cc in ast.walk(callee):
+                            if isinstance(cc, ast.Call) and isinstance(cc.func, ast.Name) and i < len(cparams) and cc.func.id == cparams[i]:
+                                hits = [k for k, a in enumerate(cc.args) if f'param:{cparams[pidx[0]]}' in cfl.origins(a)]
+                                if len(hits) != 1:
+                                    raise Undecided(f'{c2.name}.{tgt}: cannot tell which argument of {cparams[i]}(...) is the pattern')
+                                follow(T.cast(str, cbname), hits[0], depth + 1)
+                    if not cb:
+                        follow(tgt, pidx[0], depth + 1)
+        del fparams
+    follow(entry, 0)
+    ctx.floor('functions applying the default-options removal pattern', len(appliers), 1)
+    for m2, q, f, pp in appliers:
+        fl = Flow(f)
+        for c in ast.walk(f):
+            if not (isinstance(c, ast.Call) and (attr_chain(c.func) or '').startswith('re.') and c.args and f'param:{pp}' in fl.origins(c.args[0])):
+                continue
+            how = (attr_chain(c.func) or '').split('.', 1)[1]
+            if how in ('match', 'fullmatch'):
+                ok = True
+            elif how == 'search':
+                ok = self_anchored
+            else:
+                raise Undecided(f'{q}: pattern applied with re.{how}')
+            ctx.require(ok, f'{q}: `{short(c)}` anchors the pattern {lead!r}+key+{trail!r} at the start of the entry', m2, q, c,
+                        f'`{short(c)}` applies the pattern {lead!r} + key + {trail!r} of process_default_options unanchored: `default-options set debug ...` / `delete c_std` '
+                        'also removes entries that merely contain `<key>=` (b_ndebug=..., objc_std=...)', c)
+
+
+def _self_meth(e: ast.AST) -> T.Optional[str]:
+    if isinstance(e, ast.Attribute) and isinstance(e.value, ast.Name) and e.value.id in ('self', 'cls'):
+        return e.attr
+    return None
